@@ -326,6 +326,29 @@ func (c *Ctx) reconnectRetry() {
 		}
 		return false
 	}, true)
+	// ... and it is the connection's OWN context: rooted in context.Background()/TODO(), not in a
+	// context somebody handed in earlier (a constructor argument kept in a field, a parameter): that
+	// one is cancelled when its owner is done, and from then on every reconnect fails at once
+	rooted := false
+	foreign := ""
+	derivesFrom(cl.Call.Args[1], func(v ssa.Value) bool {
+		if c2 := callOf(v); c2 != nil {
+			switch callQName(&c2.Call) {
+			case "context.Background", "context.TODO":
+				rooted = true
+			}
+		}
+		if ld, ok := v.(*ssa.UnOp); ok && ld.Op == token.MUL {
+			if _, fn, ok := fieldOf(ld.X); ok && strings.HasSuffix(v.Type().String(), "context.Context") {
+				foreign = "the field " + fn
+			}
+		}
+		if p, ok := v.(*ssa.Parameter); ok && strings.HasSuffix(p.Type().String(), "context.Context") {
+			foreign = "the parameter " + p.Name()
+		}
+		return false
+	}, true)
+	c.check(rooted && foreign == "", R, "reconnect dials under the connection's own context", cl.Pos(), "rooted in context.Background()", "reconnect passes a context taken from "+foreign+" to setupEncryptedConnection: once the party that created that context has cancelled it (the initialisation context of the caller), every later reconnect attempt fails immediately and the connection stays in Connecting for ever")
 	c.check(okCtx, R, "every reconnect attempt has its own deadline", cl.Pos(), "context.Background() or a deadline created inside the loop", "reconnect: "+why+": after that deadline every dial fails immediately and the connection never leaves Connecting")
 	// the loop is left only after a successful attempt: every edge out of the loop is the nil-error edge of the call
 	okExit := true
